@@ -433,6 +433,104 @@ func init() {
 		},
 	})
 
+	// S7: handlers answer with SendAndClose(handler context, last message) while the server's write queue is contended.
+	vexp.Register(&vexp.Scenario{
+		Name: "c03.S7.sendandclose-with-handler-context-on-contended-write-queue", Prop: "C03", Also: []string{"C04"},
+		Bounds: func(thorough bool) vexp.Bounds {
+			if thorough {
+				return vexp.Bounds{P: 2, F: 1, E: 0}
+			}
+			return vexp.Bounds{P: 1, F: 1, E: 0}
+		},
+		Configs: func(thorough bool) []map[string]int {
+			out := []map[string]int{{"writeq": 64, "rbuf": 4096, "wbuf": 4096, "nch": 2}}
+			if thorough {
+				out = append(out, map[string]int{"writeq": 64, "rbuf": 4096, "wbuf": 4096, "nch": 3})
+			}
+			return out
+		},
+		MaxSteps: 100000,
+		Doc:      "real client and server connections, server write queue of 64 bytes; 2..3 channels: the client sends a request and reads until the end status, the handler answers with Send(ctx, 2000 bytes) and SendAndClose(ctx, 2000 bytes) where ctx is the context the handler was given (what test handlers and rpc's SendResponse do): the answers of the channels compete for the queue, so a closing frame has to wait for space; every client must receive both messages and then the end status",
+		Body: func(x *vexp.Ctx) {
+			nch := x.P("nch", 2)
+			s2c := make([]*c03dir, nch)
+			for i := range s2c {
+				s2c[i] = &c03dir{name: fmt.Sprintf("channel %d server->client", i)}
+			}
+			hDone := 0
+			var hSts []string
+			handler := HandleFunc(func(ctx Context, ch Channel) status.Status {
+				defer func() { hDone++ }()
+				msg, st := ch.Receive(async.NoContext())
+				if !st.OK() {
+					return st
+				}
+				idx := vPayloadChan(msg)
+				if idx < 0 || idx >= nch {
+					idx = 0
+				}
+				p0, p1 := vPayload(1, idx, 0, 2000), vPayload(1, idx, 1, 2001)
+				s2c[idx].sent = append(s2c[idx].sent, p0, p1)
+				if st := ch.Send(ctx, p0); !st.OK() {
+					hSts = append(hSts, "send:"+string(st.Code))
+					return st
+				}
+				st = ch.SendAndClose(ctx, p1)
+				if !st.OK() {
+					hSts = append(hSts, "sendandclose:"+string(st.Code))
+				}
+				return st
+			})
+			w := newWide(x, handler)
+			ctx := async.NoContext()
+			cDone := 0
+			for i := 0; i < nch; i++ {
+				i := i
+				vsched.GoNamed(fmt.Sprintf("client.ch%d", i), func() {
+					defer func() { cDone++ }()
+					ch, st := w.cli.Channel(ctx)
+					if !st.OK() {
+						s2c[i].sendFail = "channel: " + st.String()
+						return
+					}
+					defer ch.Free()
+					if st := ch.Send(ctx, vPayload(0, i, 0, 40)); !st.OK() {
+						s2c[i].sendFail = st.String()
+						return
+					}
+					for {
+						msg, st := ch.Receive(ctx)
+						if !st.OK() {
+							s2c[i].drained = st.Code == status.CodeEnd
+							return
+						}
+						s2c[i].got = append(s2c[i].got, append([]byte{}, msg...))
+					}
+				})
+			}
+			vsched.Join("clients and handlers done", func() bool { return cDone == nch && hDone == nch })
+			ngot := 0
+			for i := 0; i < nch; i++ {
+				s2c[i].check(x)
+				if s2c[i].sendFail != "" {
+					x.Fail("Send fails on a healthy connection: "+errSig(s2c[i].sendFail), "%s: %s", s2c[i].name, s2c[i].sendFail)
+				}
+				if !s2c[i].drained {
+					x.Fail("client receiver did not observe the end status", "%s", s2c[i].name)
+				}
+				if len(s2c[i].got) != 2 {
+					x.Fail("a message passed to Send / SendAndClose with the handler's context is not delivered", "%s: got %d of 2 messages; handler statuses %v", s2c[i].name, len(s2c[i].got), hSts)
+				}
+				ngot += len(s2c[i].got)
+			}
+			for _, e := range w.log.bad() {
+				x.Fail("error logged: "+errSig(e), "%s", e)
+			}
+			x.Outcome = fmt.Sprintf("delivered=%d/%d handler=%v", ngot, 2*nch, hSts)
+			w.shutdown()
+		},
+	})
+
 	// S5: the receiver lags by a full DEFAULT window (16 MiB pending unread), then drains after the sender closed.
 	vexp.Register(&vexp.Scenario{
 		Name: "c03.S5.receiver-lags-a-full-default-window", Prop: "C03",
